@@ -39,7 +39,7 @@ def otlp_bounded_phase(ctx, only=None):
                               "of the OTLP channel" % r.violated)
         return
     ctx.require_actions(r, ["Send", "Take"], "OtlpChan")
-    rb = ctx.tlc("OtlpChan", "OtlpChan_broken.cfg", workers=1, timeout=120, xmx="1g", coverage=False,
+    rb = ctx.tlc("OtlpChan", "OtlpChan_broken.cfg", workers=1, timeout=900, xmx="1g", coverage=False,
                  expect_violation=True, count=False, label="OtlpChan_broken")
     if rb.violated != "PendingBounded":
         raise vlib.ToolError("OtlpChan_broken.cfg: a channel whose len() counts requests no longer "
